@@ -76,29 +76,71 @@ def shape(case):
                                                   case.get("reuse"), " ".join(ops))
 
 
+def random_histories(ctx, prop, mine, binpath, only=None, seed=None):
+    """T on its own: seeded random long histories (faults, crashes, restarts, clock steps,
+    random ids, all lexical configurations) on the real worker; TLC decides each trace."""
+    n, nb = (2000, 14) if ctx.quick else (30000, 20)
+    tr = os.path.join(ctx.out, "random.ndjson")
+    idx = os.path.join(ctx.out, "random-index.json")
+    args = ["random", n, nb, tr, idx] + ([only] if only is not None else [])
+    ctx.run_harness(binpath, args, timeout=1500,
+                    env={"VERIF_SEED": str(seed if seed is not None else ctx.seed)})
+    meta = json.load(open(idx))
+    vs = {}
+    for i, shard in enumerate(shards(tr, os.path.join(ctx.out, "rnd"), 250000)):
+        vs.update(verdicts(ctx, shard, "tv-random-%d" % i))
+        os.remove(shard)
+    if len(vs) != meta["scenarios"]:
+        raise vlib.ToolError("monitor printed %d verdicts for %d random histories" % (
+            len(vs), meta["scenarios"]))
+    ctx.cov["traces_validated_against_impl"] += meta["scenarios"]
+    ctx.cov["random_histories"] = {"scenarios": meta["scenarios"], "events": meta["events"],
+                                   "batches_each": nb}
+    conf = {m["sid"]: m["config"] for m in meta["index"]}
+    for sid, bad in sorted(vs.items()):
+        hit = sorted(bad & mine)
+        if hit:
+            c = conf[sid]
+            what = "%s %s broken by the real worker in random history %d [%s]; maxFiles=%s maxSize=%s reuse=%s" % (
+                prop, ",".join(hit), sid, c["lex"], c["maxFiles"], c["maxSize"], c["reuse"])
+            ctx.violation(what, {"random": {"index": sid, "seed": seed if seed is not None else ctx.seed},
+                                 "config": c, "clauses": hit},
+                          signature="%s %s random lex=%s maxFiles=%s maxSize=%s reuse=%s" % (
+                              prop, ",".join(hit), c["lex"], c["maxFiles"], c["maxSize"], c["reuse"]))
+
+
 def run(ctx, prop, mine, cfgs, extra_runs=None):
     """cfgs: list of (cfg file, workers).  mine: the clause names of this property."""
     bindir = None
     binname = "c10_fileset" if prop == "C10" else "c11_fileset"
     rc = ctx.replay_case()
+    if rc is not None and "random" in rc:
+        bindir = ctx.cargo_build("vh_file", bins=[binname])
+        random_histories(ctx, prop, mine, os.path.join(bindir, binname),
+                         only=rc["random"]["index"], seed=rc["random"]["seed"])
+        return
     total_cases = 0
     taken = {}
+    if rc is not None:
+        cfgs = cfgs[:1]     # --replay: only the stored case, no exploration
     for cfg, workers in cfgs:
         label = cfg.replace(".cfg", "")
-        r = ctx.tlc("MCFileWorker", cfg, workers=workers, timeout=3000, xmx="8g", label=label)
-        if r.violated:
-            ctx.spec_violation(r, "%s FileWorker.tla (%s): clause %s fails at design level" % (
-                prop, cfg, r.violated))
-            continue
-        for a in ACTIONS:
-            taken[a] = taken.get(a, 0) + r.coverage.get(a, (0, 0))[1]
         cases = os.path.join(ctx.out, "cases-%s.ndjson" % label)
-        n = vlib.extract_printed(r.out_path, "REPLAY", cases)
-        os.remove(r.out_path) if n > 200000 else None
         if rc is not None:
             with open(cases, "w") as f:
                 f.write(json.dumps(rc["case"]) + "\n")
             n = 1
+        else:
+            r = ctx.tlc("MCFileWorker", cfg, workers=workers, timeout=3000, xmx="8g", label=label)
+            if r.violated:
+                ctx.spec_violation(r, "%s FileWorker.tla (%s): clause %s fails at design level" % (
+                    prop, cfg, r.violated))
+                continue
+            for a in ACTIONS:
+                taken[a] = taken.get(a, 0) + r.coverage.get(a, (0, 0))[1]
+            n = vlib.extract_printed(r.out_path, "REPLAY", cases)
+            if n > 200000:
+                os.remove(r.out_path)
         if n == 0 and "Emit = FALSE" in open(os.path.join(vlib.SPEC, cfg)).read():
             continue        # a design-level-only configuration
         if n == 0:
@@ -178,6 +220,8 @@ def run(ctx, prop, mine, cfgs, extra_runs=None):
                          "spec/FileWorker.tla but break no clause of %s" % (
                              ndrift, rep["total_mismatches"], prop))
                 ctx.cov["drift_runs"] = ctx.cov.get("drift_runs", 0) + ndrift
+    if rc is None and bindir is not None:
+        random_histories(ctx, prop, mine, os.path.join(bindir, binname))
     ctx.cov["cases"] = total_cases
     missing = [a for a in ACTIONS if taken and not taken.get(a)]
     if missing:
